@@ -191,7 +191,7 @@ BUDGET = {"quick": dict(same_scenario=6, same_layout=30, different=10),
 
 def run(tier, seed):
     import runner
-    b = BUDGET[tier]
+    b, tier = runner.budget(BUDGET, tier)
     modes = ["same-scenario"] * b["same_scenario"] + ["same-layout"] * b["same_layout"] + ["different"] * b["different"]
     tasks = [(seed, i, m, tier) for i, m in enumerate(modes)]
     rs = runner.pmap(run_pair, tasks)
